@@ -422,6 +422,7 @@ class List(list, base.Symbolic, pg_typing.CustomTyping):
     if index < len(self):
       if should_insert:
         list.insert(self, index, new_value)
+        self._update_children_index()
       else:
         list.__setitem__(self, index, new_value)
         # Detach old value from object tree.
@@ -470,12 +471,16 @@ class List(list, base.Symbolic, pg_typing.CustomTyping):
         list.__delitem__(self, i)
 
     # Update paths for children.
-    for idx, item in self.sym_items():
-      if isinstance(item, base.TopologyAware) and item.sym_path.key != idx:
-        item.sym_setpath(utils.KeyPath(idx, self.sym_path))
+    self._update_children_index()
 
     if self._onchange_callback is not None:
       self._onchange_callback(field_updates)
+
+  def _update_children_index(self) -> None:
+    """Updates the paths of children whose positions have changed."""
+    for idx, item in self.sym_items():
+      if isinstance(item, base.TopologyAware) and item.sym_path.key != idx:
+        item.sym_setpath(utils.KeyPath(idx, self.sym_path))
 
   def _parse_slice(self, index: slice) -> Tuple[int, int, int]:
     start = index.start if index.start is not None else 0
@@ -598,6 +603,7 @@ class List(list, base.Symbolic, pg_typing.CustomTyping):
 
     old_value = self.sym_getattr(index)
     super().__delitem__(index)
+    self._update_children_index()
 
     if flags.is_change_notification_enabled():
       self._notify_field_updates([
@@ -738,12 +744,14 @@ class List(list, base.Symbolic, pg_typing.CustomTyping):
     if base.treats_as_sealed(self):
       raise base.WritePermissionError('Cannot sort a sealed List.')
     super().sort(key=key, reverse=reverse)
+    self._update_children_index()
 
   def reverse(self) -> None:
     """Reverse the elements of the list in place."""
     if base.treats_as_sealed(self):
       raise base.WritePermissionError('Cannot reverse a sealed List.')
     super().reverse()
+    self._update_children_index()
 
   def custom_apply(
       self,
